@@ -631,6 +631,107 @@ pub fn run(tier: &str) -> Run {
             }
         }
     }
+    // load_fragment: the content of the MODULE of every carrier, optional-slot and rich document loaded as a fragment;
+    // write(path, banner) + load(path)
+    let mut fdocs: Vec<(String, String)> = Vec::new();
+    for d in corpus::carriers(&g).into_iter().chain(corpus::rich_docs(&g)).chain(corpus::opt_docs(&g, 1)) {
+        fdocs.push((d.label.clone(), d.doc.text()));
+    }
+    let scratch = {
+        let base = if std::path::Path::new("/dev/shm").is_dir() { "/dev/shm".to_string() } else { std::env::temp_dir().to_string_lossy().into_owned() };
+        let d = std::path::PathBuf::from(base).join(format!("verif-c01-{}", std::process::id()));
+        let _ = std::fs::create_dir_all(&d);
+        d
+    };
+    let fres = par_map(
+        fdocs.len() * 2,
+        &|j| {
+            let (_, text) = &fdocs[j / 2];
+            if j % 2 == 1 {
+                // banner: the written file (with a leading comment) loads to the same model
+                let Loaded::Ok(f, _) = load(text, None, false) else { return ("banner", RT::NotAccepted) };
+                let path = scratch.join(format!("b{j}.a2l"));
+                let r = vcore::explore::guard(|| {
+                    f.write(&path, Some("written by the harness")).map_err(|e| e.to_string())?;
+                    let (f2, _) = a2lfile::load(&path, None, false).map_err(|e| e.to_string())?;
+                    let t = std::fs::read_to_string(&path).map_err(|e| e.to_string())?;
+                    Ok::<_, String>((f2, t))
+                });
+                let _ = std::fs::remove_file(&path);
+                return (
+                    "banner",
+                    match r {
+                        Err(p) => RT::Viol { oracle: "panic", what: p },
+                        Ok(Err(e)) => RT::Viol { oracle: "reload-fails", what: format!("file written with a banner: {e}") },
+                        Ok(Ok((f2, t))) => {
+                            if f2 != f {
+                                RT::Viol { oracle: "model-differs", what: "file written with a banner loads to a different model".into() }
+                            } else if !t.starts_with("/* written by the harness */") || !t.ends_with(&f.write_to_string()) {
+                                RT::Viol { oracle: "text-differs", what: format!("file written with a banner is not banner + write_to_string(): {}", short(&t, 200)) }
+                            } else {
+                                RT::Ok { bytes_t1: t.len() }
+                            }
+                        }
+                    },
+                );
+            }
+            let Some(a) = text.find("/begin MODULE") else { return ("fragment", RT::NotAccepted) };
+            let Some(b) = text.rfind("/end MODULE") else { return ("fragment", RT::NotAccepted) };
+            let Some(nl) = text[a..].find('\n') else { return ("fragment", RT::NotAccepted) };
+            if a + nl >= b {
+                return ("fragment", RT::NotAccepted);
+            }
+            let frag = &text[a + nl..b];
+            let full = match load(text, None, false) {
+                Loaded::Ok(f, log) if log.is_empty() => f,
+                _ => return ("fragment", RT::NotAccepted),
+            };
+            let m = match vcore::explore::guard(|| a2lfile::load_fragment(frag, None)) {
+                Err(p) => return ("fragment", RT::Viol { oracle: "panic", what: p }),
+                Ok(Err(e)) => return ("fragment", RT::Viol { oracle: "fragment-rejected", what: format!("the module content of a valid document is rejected as fragment: {e}") }),
+                Ok(Ok(m)) => m,
+            };
+            let mut m_named = m.clone();
+            {
+                use a2lfile::{A2lObjectName, A2lObjectNameSetter};
+                let n = full.project.module[0].get_name().to_string();
+                m_named.set_name(n);
+            }
+            m_named.long_identifier = full.project.module[0].long_identifier.clone();
+            if m_named != full.project.module[0] {
+                return ("fragment", RT::Viol { oracle: "fragment-differs", what: "load_fragment yields a different module than loading the whole document".into() });
+            }
+            let mut f = a2lfile::new();
+            f.project.module[0] = m;
+            ("fragment", roundtrip_model(&f))
+        },
+        &|j| {
+            println!("MACHINERY-ERROR: C01 fragment case {j} hangs");
+            std::process::exit(2);
+        },
+    );
+    let _ = std::fs::remove_dir_all(&scratch);
+    for (j, (fam, r)) in fres.into_iter().enumerate() {
+        run.evaluations += 1;
+        run.transitions += 4;
+        let h = fnv1a(format!("{fam} {}", fdocs[j / 2].0).as_bytes());
+        run.states.insert(h);
+        match r {
+            RT::Ok { .. } => {
+                run.nontrivial.insert(h);
+                run.outcome(&format!("{fam}: stable"));
+            }
+            RT::NotAccepted => run.outcome(&format!("{fam}: not applicable")),
+            RT::Viol { oracle, what } => {
+                run.outcome(&format!("{fam}: violation"));
+                let tag = fdocs[j / 2].0.clone();
+                let key = if oracle.starts_with("panic") { format!("C01/{oracle} {}", vcore::explore::panic_key(&what)) } else { format!("C01/{oracle}/{fam}:{tag}") };
+                run.violation(key, format!("{fam} of {tag}: {what}"), json!({"text": fdocs[j / 2].1, "family": fam, "label": tag}));
+            }
+        }
+    }
+    run.require("fragment: stable", 100);
+    run.require("banner: stable", 100);
     run.require("push-history: stable", 100);
     run.require("api: stable", 500);
     run.require("grammar: stable", 1000);
@@ -638,7 +739,7 @@ pub fn run(tier: &str) -> Run {
     run.require("cm: stable", 1000);
     run.require("val: stable", 1000);
     run.require("ifdata: stable", 50);
-    run.rule = "documents = grammar carriers + every optional slot (once, twice, pairs) + every enum item, each also with CRLF; whitespace (7 kinds) and comments (7 kinds) at every gap of every carrier and of rich documents, all pairs on selected documents; every value class at every scalar parameter (ints per width, 28 float notations, all strings of <= k escape units, identifier shapes); IF_DATA x {with/without A2ML} x {built-in spec} x CRLF. Oracle: t0 -load-> M0 -write-> t1 -load-> M1 -write-> t2: reload ok, M1 == M0, t2 == t1 bytewise (3rd cycle classifies drift). distinct = distinct input text; non-trivial = accepted by the loader".into();
+    run.rule = "documents = grammar carriers + every optional slot (once, twice, pairs) + every enum item, each also with CRLF; whitespace (7 kinds) and comments (7 kinds) at every gap of every carrier and of rich documents, all pairs on selected documents; every value class at every scalar parameter (ints per width, 28 float notations, all strings of <= k escape units, identifier shapes); IF_DATA x {with/without A2ML} x {built-in spec} x CRLF; the MODULE content of every carrier / optional-slot / rich document through load_fragment (equal to the module of the whole document, stable when placed in a new file); every such document written with a banner to a file and loaded from it. Oracle: t0 -load-> M0 -write-> t1 -load-> M1 -write-> t2: reload ok, M1 == M0, t2 == t1 bytewise (3rd cycle classifies drift). distinct = distinct input text; non-trivial = accepted by the loader".into();
     run.assumptions = vec!["inputs the loader rejects are outside the quantifier and only counted".into()];
     run
 }
